@@ -92,6 +92,10 @@ fn strat(bits: usize) -> BoxedStrategy<Case> {
             let mb = big(&m);
             let a = place(ka, &ra, &mb, bits);
             let mut b = place(kb, &rb, &mb, bits);
+            // one case in eight: b = a (a squaring shortcut in mul_mod would only see these)
+            if rb.first().map_or(false, |x| x % 8 == 1) {
+                b = a.clone();
+            }
             // one case in eight: b = k*m - a, so that a + b is an exact multiple of m
             if rb.first().map_or(false, |x| x % 8 == 0) && !mb.is_zero() {
                 let ab = big(&a);
@@ -200,7 +204,7 @@ fn body<const B: usize, const L: usize>(c: &Case, rec: &mut Rec) -> R {
 fn main() {
     let spec = PropSpec {
         id: "C10",
-        rule_text: "tuples (a, b, m, e) per width: m from {0,1,2,3, 2^k, 2^k+-1, 2^BITS-1, 2^BITS-2, 2^(BITS-1), boundary-alphabet values of every limb length 1..LIMBS, normalised generic moduli of every limb length (top bit of the leading limb set, leading limb just above 2^63 half of the time)}; operands placed relative to m: {0, 1, m-1, m, m+1, MAX, k*m+{0,1,2}, exact multiples (largest that fits, generic cofactor, one-limb cofactor >= 2^63), alphabet}, one case in eight with b = k*m - a (the sum is an exact multiple); exponents {0..3, 2^k, 2^k-1, alphabet truncated to <= 128 bits (full width for BITS <= 64)}; exhaustive: all (a,b,m) triples for BITS <= 5, all (a,m) pairs for inv_mod for BITS <= 8, all (a,b,m) with limbs from {0,1,2^63,MAX-1,MAX} (2 limbs) / {1,2^63,MAX} (3 limbs) at 6 widths. Oracle: num-bigint %, modpow, gcd; 0 when m = 0; inv_mod by its defining predicate. Non-trivial: m >= 2 and (an operand >= m, or a+b >= 2^BITS, or a*b >= 2^BITS, or m has fewer limbs than the product); distinct by inputs.",
+        rule_text: "tuples (a, b, m, e) per width: m from {0,1,2,3, 2^k, 2^k+-1, 2^BITS-1, 2^BITS-2, 2^(BITS-1), boundary-alphabet values of every limb length 1..LIMBS, normalised generic moduli of every limb length (top bit of the leading limb set, leading limb just above 2^63 half of the time)}; operands placed relative to m: {0, 1, m-1, m, m+1, MAX, k*m+{0,1,2}, exact multiples (largest that fits, generic cofactor, one-limb cofactor >= 2^63), alphabet}, one case in eight with b = k*m - a (the sum is an exact multiple), one in eight with b = a; exponents {0..3, 2^k, 2^k-1, alphabet truncated to <= 128 bits (full width for BITS <= 64)}; exhaustive: all (a,b,m) triples for BITS <= 5, all (a,m) pairs for inv_mod for BITS <= 8, all (a,b,m) with limbs from {0,1,2^63,MAX-1,MAX} (2 limbs) / {1,2^63,MAX} (3 limbs) at 6 widths. Oracle: num-bigint %, modpow, gcd; 0 when m = 0; inv_mod by its defining predicate. Non-trivial: m >= 2 and (an operand >= m, or a+b >= 2^BITS, or a*b >= 2^BITS, or m has fewer limbs than the product); distinct by inputs.",
         assumptions: vec![
             "num-bigint / num-integer modpow, gcd and % are correct (oracle)",
             "exponents are truncated to 128 bits above 64-bit widths to bound the cost of the oracle and of pow_mod",
